@@ -11,6 +11,47 @@ import (
 var vrfEntries = map[string]func(){
 	"VrfC09Latest": VrfC09Latest,
 	"VrfC09Alerts": VrfC09Alerts,
+	"VrfC09Phi":    VrfC09Phi,
+}
+
+// (engine only) the phi-accrual arithmetic is floating point: any verdict
+func vrfPhi(v float64, d []float64) float64 {
+	if vrf_nondet_bool("phi_says_failed") {
+		return 1000000
+	}
+	return 0
+}
+
+// VrfC09Phi: enough samples for the accrual detector to be consulted. Whatever
+// the detector says, a peer whose latest metric is unexpired is not reported,
+// and an expired one is reported at most once.
+func VrfC09Phi() {
+	accrualMetricsNum = 3
+	DefaultWindowCap = 8
+	now := vrf_now()
+	st := NewStore()
+	mc := NewChecker(context.Background(), st, 3.0)
+	n := 3 + vrf_choice("extra_entries", vrf_param("extra"))
+	var latest *api.Metric
+	for i := 0; i < n; i++ {
+		latest = &api.Metric{Name: "ping", Peer: vrfPeers[0], Valid: true, Expire: vrfExpiry(now), Value: "1"}
+		st.Add(latest)
+	}
+	expired := now > latest.Expire
+	vrf_note_bool("latest_expired", expired)
+	// a pause much longer than the arrival spacing (what makes the detector suspicious)
+	vrf_advance_time(300)
+	failedNow := mc.FailedMetric("ping", vrfPeers[0])
+	vrf_assert(vrf_implies(!expired, !failedNow), "C09.phi.unexpired-never-failed")
+	total := 0
+	for c := 0; c < 2; c++ {
+		vrf_assert(mc.CheckPeers([]peer.ID{vrfPeers[0]}) == nil, "C09.phi.no-error")
+		total += vrfDrain(mc)
+	}
+	vrf_assert(vrf_implies(!expired, total == 0), "C09.phi.never-unexpired")
+	vrf_assert(total <= 1, "C09.phi.at-most-once")
+	vrf_assert(vrf_implies(!expired, st.PeerLatest("ping", vrfPeers[0]) == latest), "C09.phi.fresh-kept")
+	vrf_reach("C09.phi.end")
 }
 
 var vrfPeers = []peer.ID{"pA", "pB", "pC"}
